@@ -251,8 +251,8 @@ class Report:
         self.notes = []
         self.extra = {}
         self.known = [k for k in load_known() if k.get('property') == pid and k.get('status') == 'open']
-    def count(self, key):
-        self.dist[key] = self.dist.get(key, 0) + 1
+    def count(self, key, n=1):
+        self.dist[key] = self.dist.get(key, 0) + n
     def violation(self, what, replay):
         self.violations.append((what, replay))
     def finish(self, rule, checker_cmd, level='proof', explanation=None):
